@@ -47,15 +47,18 @@ def okname(c):
 
 
 class Hole:
-    def __init__(self, marker, kind="str", L=2, quote='"', not_words=(), other_quote=False):
+    def __init__(self, marker, kind="str", L=2, quote='"', not_words=(), other_quote=False, multi=False):
         self.marker, self.kind, self.L, self.quote, self.not_words = marker, kind, L, quote, tuple(not_words)
         self.other_quote = other_quote
+        self.multi = multi             # the keyword has several schema alternatives: expression / regex / list / binding look-alikes excluded
 
     @property
     def var(self):
         return "s_" + self.marker.lower()
 
     def params(self):
+        if self.kind == "esc":
+            return chars(self.marker.lower() + "_", 1 + self.L)       # one character, an escaped quote, then L (0 or 1) characters
         return chars(self.marker.lower() + "_", self.L)
 
     def pre(self):
@@ -65,7 +68,7 @@ class Hole:
                 out.append(f"okname({n})")
             elif self.other_quote:
                 out.append(f"okq({n}, {ord(self.quote)})" + (f" & ({n} != 35)" if i == 0 else ""))
-            elif self.kind == "xstr" and i == 0:
+            elif (self.kind == "xstr" or self.multi) and i == 0:
                 out.append(f"okfirst({n})")
             elif i == 0:
                 out.append(f"okstart({n})")
@@ -75,6 +78,8 @@ class Hole:
             p = [n for n, _ in self.params()]
             out.append(f"({p[0]} != 78) | ({p[1]} != 79) | ({p[2]} != 84) | ({p[3]} != 32)")
         p = [n for n, _ in self.params()]
+        if self.kind == "esc" and self.multi and self.L:
+            out.append(f"{p[1]} != 105")          # ...\"i would read as a case-insensitive string literal (expression look-alike)
         for w in self.not_words:
             # a string that is (case-insensitively) an enumerated word of its keyword is an enumerated value, not a free string
             if len(w) == self.L and self.L > 0:
@@ -86,6 +91,11 @@ class Hole:
         return out
 
     def build(self):
+        if self.kind == "esc":
+            pfx = self.marker.lower() + "_"
+            tail = f" + chr({pfx}1)" if self.L else ""
+            # content with a backslash-escaped quote of the string's own kind (in the documented domain: only *unescaped* quotes are excluded)
+            return f"{self.var} = chr({pfx}0) + chr(92) + {self.quote!r}{tail}"
         return f"{self.var} = {chr_expr(self.marker.lower() + '_', self.L)}"
 
     def src_token(self):
@@ -93,6 +103,9 @@ class Hole:
         if self.kind == "name":
             return self.marker
         return self.quote + self.marker + self.quote
+
+    def is_string(self):
+        return self.kind != "name"
 
     def src_value(self):
         if self.kind == "name":
